@@ -10,6 +10,8 @@ import (
 	"strings"
 
 	"golang.org/x/tools/go/ssa"
+
+	"verif/checker/load"
 )
 
 type RootKind int
@@ -206,7 +208,7 @@ func PrettyPath(t types.Type, p Path) string {
 			name := fmt.Sprintf("f%d", s.N)
 			if t != nil {
 				if u, ok := t.Underlying().(*types.Struct); ok && s.N < u.NumFields() {
-					name = u.Field(s.N).Name()
+					name = load.FieldName(t, s.N)
 					t = u.Field(s.N).Type()
 				} else {
 					t = nil
